@@ -53,7 +53,30 @@ def plain(rnd, depth, sets=True, strkeys=False, tuples=True):
                 d[k] = plain(rnd, depth - 1, sets, strkeys, tuples)
         return d
     items = [plain(rnd, depth - 1, sets, strkeys, tuples) for _ in range(n)]
+    if tuples and rnd.random() < 0.15:
+        # siblings that compare equal although they differ in the type of a primitive or in the sign of zero
+        fam = rnd.choice([[(1, 2), (True, 2)], [(0.0,), (-0.0,)], [(1,), (1.0,)], [(0, "a"), (False, "a"), (0.0, "a")],
+                          [(True, (1, 0)), (1, (True, False))]] + ([[frozenset([0]), frozenset([False])], [frozenset([1, "x"]), frozenset([True, "x"])]] if sets else []))
+        fam = list(fam)
+        rnd.shuffle(fam)
+        items = items[:1] + fam + items[1:]
     return items if kind == "list" else tuple(items)
+
+
+class Picky(object):
+    """A value of unsupported type whose equality only copes with its own kind (as hand-written beans often do)."""
+    def __init__(self, x):
+        self.x = x
+
+    def __eq__(self, other):
+        return self.x == other.x
+
+    __hash__ = None
+
+
+def unsupported(rnd):
+    import threading
+    return rnd.choice([object(), threading.Lock(), (lambda: 1), complex(1, 2), Picky(3), Picky("a"), Ellipsis, iter([1])])
 
 
 def call(fn):
@@ -63,7 +86,7 @@ def call(fn):
         return {"ok": False, "v": None, "exc": "%s: %s" % (type(e).__name__, str(e)[:100])}
 
 
-def graph(rnd, W, depth, keys):
+def graph(rnd, W, depth, keys, unsup=False):
     """An object graph: beans at the top, in lists, in dicts, in lists held by fields of other beans."""
     def value(what):
         if what == "enumidx":
@@ -75,18 +98,20 @@ def graph(rnd, W, depth, keys):
         # a field value: supported types; containers may hold further beans
         r = rnd.random()
         if depth > 0 and r < 0.35:
-            inner = [graph(rnd, W, depth - 1, keys) for _ in range(rnd.randint(1, 2))]
+            inner = [graph(rnd, W, depth - 1, keys, unsup) for _ in range(rnd.randint(1, 2))]
             return inner if rnd.random() < 0.5 else {"k": inner[0], "n": atom(rnd)}
         if r < 0.5:
             return plain(rnd, 2, sets=True, strkeys=True)
+        if unsup and r < 0.6:
+            return unsupported(rnd)          # neither supported nor handled: the field is omitted, nothing fails
         return atom(rnd)
     r = rnd.random()
     if depth > 0 and r < 0.25:
-        return [graph(rnd, W, depth - 1, keys) for _ in range(rnd.randint(1, 3))]
+        return [graph(rnd, W, depth - 1, keys, unsup) for _ in range(rnd.randint(1, 3))]
     if depth > 0 and r < 0.4:
-        return {"x": graph(rnd, W, depth - 1, keys), "y": atom(rnd)}
+        return {"x": graph(rnd, W, depth - 1, keys, unsup), "y": atom(rnd)}
     if depth > 0 and r < 0.45:
-        return (graph(rnd, W, depth - 1, keys), atom(rnd))
+        return (graph(rnd, W, depth - 1, keys, unsup), atom(rnd))
     return W.make(rnd.choice(keys), value)
 
 
@@ -156,7 +181,7 @@ def run(out, seed, n, mode):
             table, H = handlers_for(W, rnd, keys)
             config.serialize_handlers = table
             ign = rnd.sample(["a", "_b", "c", "d", "e", "p", "label", "_D0__c"], rnd.randint(0, 3)) if rnd.random() < 0.7 else None
-            orig = graph(rnd, W, rnd.randint(0, 2), keys + ["PtL", "Color"])
+            orig = graph(rnd, W, rnd.randint(0, 2), keys + ["PtL", "Color"], unsup=True)
             recs.append(record(W, orig, {"H": H, "ign": ["s:" + x for x in (ign or [])]}, mode, config, ign))
         elif mode == "fail":
             recs.append(record_failure(W, rnd, config, beans))
